@@ -8,22 +8,23 @@ import (
 
 // Operation kinds.
 const (
-	KParse        = "parse"        // lucene.Parse(q[, WithDefaultField])
-	KToPG         = "topg"         // lucene.ToPostgres(q...)              (package-level driver)
-	KToParam      = "toparam"      // lucene.ToParameterizedPostgres(q...) (package-level driver)
-	KRender       = "render"       // d.Render(e)
-	KRenderParam  = "renderparam"  // d.RenderParam(e)
-	KCRender      = "crender"      // custom.Render(e)      (user RenderFN callbacks, fault seam)
-	KCRenderParam = "crenderparam" // custom.RenderParam(e)
-	KString       = "string"       // e.String()
-	KGoString     = "gostring"     // fmt.Sprintf("%#v", e)
-	KSprint       = "sprint"       // fmt.Sprintf("%s|%v", e, e)
-	KMarshal      = "marshal"      // json.Marshal(e)
-	KValidate     = "validate"     // expr.Validate(e)
-	KUnmarshal    = "unmarshal"    // json.Unmarshal(doc, &fresh)
-	KNewDriver    = "newdriver"    // driver.NewPostgresDriver()  (reads driver.Shared)
-	KSpawn        = "spawn"        // start a late task
-	KPublish      = "publish"      // build a shared expression mid-run and publish it (atomic.Pointer)
+	KParse        = "parse"         // lucene.Parse(q[, WithDefaultField])
+	KToPG         = "topg"          // lucene.ToPostgres(q...)              (package-level driver)
+	KToParam      = "toparam"       // lucene.ToParameterizedPostgres(q...) (package-level driver)
+	KRender       = "render"        // d.Render(e)
+	KRenderParam  = "renderparam"   // d.RenderParam(e)
+	KCRender      = "crender"       // custom.Render(e)      (user RenderFN callbacks, fault seam)
+	KCRenderParam = "crenderparam"  // custom.RenderParam(e)
+	KString       = "string"        // e.String()
+	KGoString     = "gostring"      // fmt.Sprintf("%#v", e)
+	KSprint       = "sprint"        // fmt.Sprintf("%s|%v", e, e)
+	KMarshal      = "marshal"       // json.Marshal(e)
+	KMarshalDir   = "marshaldirect" // e.MarshalJSON() called directly; the caller keeps the returned bytes
+	KValidate     = "validate"      // expr.Validate(e)
+	KUnmarshal    = "unmarshal"     // json.Unmarshal(doc, &fresh)
+	KNewDriver    = "newdriver"     // driver.NewPostgresDriver()  (reads driver.Shared)
+	KSpawn        = "spawn"         // start a late task
+	KPublish      = "publish"       // build a shared expression mid-run and publish it (atomic.Pointer)
 )
 
 // Callback fault kinds (injected through the Base.RenderFNs seam).
@@ -290,11 +291,11 @@ func genExprSpec(r *zsimrt.Rand, c *corpus, renderBias bool) ExprSpec {
 }
 
 var (
-	kindsAll    = []string{KParse, KParse, KToPG, KToParam, KRender, KRenderParam, KRenderParam, KCRender, KCRenderParam, KString, KGoString, KSprint, KMarshal, KValidate, KUnmarshal, KNewDriver}
+	kindsAll    = []string{KParse, KParse, KToPG, KToParam, KRender, KRenderParam, KRenderParam, KCRender, KCRenderParam, KString, KGoString, KSprint, KMarshal, KMarshalDir, KValidate, KUnmarshal, KNewDriver}
 	kindsRender = []string{KRender, KRenderParam, KRenderParam, KCRender, KCRenderParam, KToPG, KToParam, KString}
 	kindsParse  = []string{KParse, KParse, KParse, KToPG, KToParam, KUnmarshal, KValidate}
-	kindsPrint  = []string{KString, KGoString, KSprint, KMarshal, KMarshal, KValidate, KUnmarshal, KRenderParam}
-	kindsSubj   = []string{KRender, KRender, KRenderParam, KRenderParam, KCRender, KCRenderParam, KString, KGoString, KSprint, KMarshal, KValidate}
+	kindsPrint  = []string{KString, KGoString, KSprint, KMarshal, KMarshal, KMarshalDir, KValidate, KUnmarshal, KRenderParam}
+	kindsSubj   = []string{KRender, KRender, KRenderParam, KRenderParam, KCRender, KCRenderParam, KString, KGoString, KSprint, KMarshal, KMarshalDir, KValidate}
 	kindsGlobal = []string{KParse, KParse, KToPG, KToPG, KToParam, KToParam, KNewDriver, KUnmarshal}
 )
 
